@@ -41,6 +41,10 @@ exec cat "$1"
 """
 
 
+def _e(x):
+    return esc(x if isinstance(x, bytes) else str(x).encode("utf-8", "surrogateescape"))
+
+
 def gen_tree(rng, root):
     n = rng.pick([20, 30, 60, 120, 400])
     for i in range(n):
@@ -64,7 +68,62 @@ def gen_tree(rng, root):
             data = unit * rng.range(50, 300)
         with open(p, "wb") as f:
             f.write(data)
+    # furniture that makes the two walkers (serial for -j1, parallel otherwise)
+    # take decisions: links to files and directories, hidden files, nested
+    # ignore files
+    files = sorted(os.path.relpath(os.path.join(dp, f), root) for dp, _, fs in os.walk(root) for f in fs)
+    for k in range(rng.below(8)):
+        target = rng.pick(files)
+        name = rng.pick(["ln%d.txt" % k, "a_rather_long_link_name_pointing_somewhere_else_%d.txt" % k])
+        d = rng.pick(["", "d1", "d2", "d5"])
+        os.makedirs(os.path.join(root, d), exist_ok=True)
+        try:
+            os.symlink(os.path.relpath(os.path.join(root, target), os.path.join(root, d)), os.path.join(root, d, name))
+        except OSError:
+            pass
+    if rng.chance(1, 3):
+        try:
+            os.symlink("d2", os.path.join(root, "dlink"))
+        except OSError:
+            pass
+    for k in range(rng.below(4)):
+        with open(os.path.join(root, rng.pick(["", "d1", "d4"]), ".hid%d.txt" % k), "wb") as f:
+            f.write(b"needle hidden %d\nalpha\n" % k)
+    for d in rng.sample(["", "d1", "d2", "d3", "d4"], rng.below(3)):
+        if os.path.isdir(os.path.join(root, d)):
+            rules = [rng.pick(["f00*", "*.slow", "d3/", "!f001*", "f1*.txt", "/d6", "ln*", "!*.bad"]) for _ in range(rng.range(1, 3))]
+            with open(os.path.join(root, d, ".ignore"), "w") as f:
+                f.write("\n".join(rules) + "\n")
     return n
+
+
+def gen_walk_args(rng, root):
+    """traversal options and roots: the file set must be the same for every
+    thread count whatever they are"""
+    args = []
+    if rng.chance(1, 3):
+        args.append("-L")
+    if rng.chance(1, 3):
+        args += ["--max-filesize", rng.pick(["40", "1K", "20K"])]
+    if rng.chance(1, 5):
+        args += ["--max-depth", str(rng.range(1, 2))]
+    if rng.chance(1, 4):
+        args.append("--hidden")
+    if rng.chance(1, 5):
+        args.append("--no-ignore")
+    if rng.chance(1, 5):
+        args += ["-g", rng.pick(["!d1/**", "*.txt", "!f0*", "{d2/**,f1*}"])]
+    roots = ["t"]
+    if rng.chance(1, 3):
+        # several roots, more of them than some of the thread counts
+        tops = sorted(os.listdir(root))
+        dirs = ["t/" + x for x in tops if os.path.isdir(os.path.join(root, x)) and not os.path.islink(os.path.join(root, x))]
+        fls = ["t/" + x for x in tops if os.path.isfile(os.path.join(root, x)) and not x.startswith(".")
+               and not x.endswith(".bad")]
+        roots = dirs + fls[:rng.pick([0, 2, 14])]
+        if not roots:
+            roots = ["t"]
+    return args, roots
 
 
 def blocks_null(out):
@@ -208,7 +267,11 @@ def cli_case(case, env):
     modes = MODES if tier == "thorough" else rng.sample(MODES, 4)
     threads = [2, 3, 4, 8, 16] if tier == "thorough" else rng.sample([2, 3, 4, 8, 16], 3)
     reps = 5 if tier == "thorough" else 2
-    base = ["--no-config", "--color", "never", "--pre", pre, "--pre-glob", "*.{slow,bad}"]
+    wargs, roots = gen_walk_args(rng, root)
+    base = ["--no-config", "--color", "never", "--pre", pre, "--pre-glob", "*.{slow,bad}"] + wargs
+    env.count("cases_with_walk_options" if wargs else "cases_with_default_walk")
+    if len(roots) > 1:
+        env.count("cases_with_several_roots")
 
     def good(blocks):
         # results of a file whose preprocessor failed are not comparable
@@ -223,7 +286,7 @@ def cli_case(case, env):
         return out
     for mname, margs, kind in modes:
         pat = [] if mname == "files" else ["-e", pattern]
-        ref = common.run_rg(base + margs + ["-j1"] + pat + ["t"], env.tmp, env.home, timeout=300)
+        ref = common.run_rg(base + margs + ["-j1"] + pat + roots, env.tmp, env.home, timeout=300)
         if ref is None:
             env.inconclusive("watchdog")
             continue
@@ -237,14 +300,14 @@ def cli_case(case, env):
         for n in threads:
             for r in range(reps):
                 rep["evaluations"] += 1
-                got = common.run_rg(base + margs + ["-j%d" % n] + pat + ["t"], env.tmp, env.home, timeout=300)
+                got = common.run_rg(base + margs + ["-j%d" % n] + pat + roots, env.tmp, env.home, timeout=300)
                 if got is None:
                     env.inconclusive("watchdog")
                     continue
                 env.count("rg_runs")
                 gblocks, gprob = parse(kind, got[1])
                 rp = {"kind": "cli", "seed": case["seed"], "mode": mname, "threads": n, "pattern": pattern,
-                      "argv": base + margs + ["-j%d" % n] + pat + ["t"]}
+                      "argv": base + margs + ["-j%d" % n] + pat + roots}
                 if gprob:
                     env.viol("C08:%s:malformed-output" % mname, "-j%d: %s" % (n, gprob[0]),
                              dict(rp, stdout=esc(got[1][:3000])))
@@ -253,7 +316,7 @@ def cli_case(case, env):
                 if len(set(paths)) != len(paths):
                     dup = [p for p in set(paths) if paths.count(p) > 1][0]
                     env.viol("C08:%s:file-block-split-or-duplicated" % mname,
-                             "-j%d: file %s appears in %d separate blocks" % (n, esc(dup), paths.count(dup)), rp)
+                             "-j%d: file %s appears in %d separate blocks" % (n, _e(dup), paths.count(dup)), rp)
                     continue
                 have = sorted((p, tuple(ls)) for p, ls in good(gblocks))
                 if have != want:
@@ -261,7 +324,7 @@ def cli_case(case, env):
                     extra = [p for p in paths if p not in set(q for q, _ in want)]
                     env.viol("C08:%s:blocks-differ-from-single-threaded" % mname,
                              "-j%d: %d blocks vs %d; missing %s extra %s (or same files with different bytes)" % (
-                                 n, len(have), len(want), [esc(x) for x in missing[:3]], [esc(x) for x in extra[:3]]), rp)
+                                 n, len(have), len(want), [_e(x) for x in missing[:3]], [_e(x) for x in extra[:3]]), rp)
                     continue
                 if got[0] != ref[0]:
                     env.viol("C08:%s:exit-status" % mname, "-j%d exits %d, -j1 exits %d" % (n, got[0], ref[0]), rp)
@@ -278,11 +341,11 @@ def cli_case(case, env):
         c = rep["counters"]
         c["max_distinct_orders_for_one_tree_and_mode"] = max(c.get("max_distinct_orders_for_one_tree_and_mode", 0), len(orders))
     # --sort path: total, reproducible, equal to single-threaded
-    sargs = base + ["-n", "--no-heading", "--sort", "path", "-e", pattern, "t"]
-    ref = common.run_rg(sargs + ["-j1"], env.tmp, env.home, timeout=300)
+    sargs = base + ["-n", "--no-heading", "--sort", "path", "-e", pattern]
+    ref = common.run_rg(sargs + ["-j1"] + roots, env.tmp, env.home, timeout=300)
     for i in range(reps + 1):
         rep["evaluations"] += 1
-        got = common.run_rg(sargs + ["-j%d" % rng.pick([2, 4, 8, 16])], env.tmp, env.home, timeout=300)
+        got = common.run_rg(sargs + ["-j%d" % rng.pick([2, 4, 8, 16])] + roots, env.tmp, env.home, timeout=300)
         if ref is None or got is None:
             env.inconclusive("watchdog")
             continue
@@ -290,7 +353,7 @@ def cli_case(case, env):
         if got[1] != ref[1] or got[0] != ref[0]:
             env.viol("C08:sort:differs-from-single-threaded", "--sort path output differs from -j1 --sort path",
                      {"kind": "cli", "seed": case["seed"], "argv": sargs})
-    env.sample({"files": nfiles, "pattern": pattern, "modes": [m[0] for m in modes], "threads": threads,
+    env.sample({"files": nfiles, "walk_args": wargs, "roots": len(roots), "pattern": pattern, "modes": [m[0] for m in modes], "threads": threads,
                 "repetitions": reps})
 
 
